@@ -10,5 +10,10 @@ CLAIMS = {
   "text": "Decides on all paths of every function in ark-poly that writes a DensePolynomial's coefficient vector that the strip-leading-zeros loop follows before the value escapes (exemptions frozen with reasons: Neg, scalar Mul, DerefMut, serialization); that computed sparse terms are pushed only under a non-zero guard; the guard structure of divide_with_q_and_r; and, by symbolic evaluation with operands as ring symbols, that every univariate operator defined through other operators (Sub/SubAssign/AddAssign/by-value forms) returns the combination its trait promises on every path. Coefficient-level results of the loops (pointwise sums, FFT products, evaluation) are not decided.",
   "note": "Trusted: rustc MIR, the exemption table in rules/c08.py, the ring-operation model in arklib/symex.py. Assumes operator inputs are canonical. Shows canonical-form preservation and operator wiring, not coefficient values.",
  },
+ "C10": {
+  "technique": "path-exhaustive typestate over MIR (validation evidence per returned point, enumerated over compress x {on-curve?, in-subgroup?} worlds) + mode-flag dataflow",
+  "text": "Decides, for every point deserializer in the repository (generic SW/TE defaults, Affine/Projective wrappers, the bls12_381 overrides and their read_* helpers in curves/, test-curves), on every path with validation on: Ok(non-identity point) cannot be returned when the point is outside the subgroup, nor when it is off the curve unless it came from an on-curve constructor, and the tests were applied to the value actually returned; Valid::check for affine points is Ok only when both tests hold; validate/compress flags are passed through or compensated in all ~130 inner (de)serialization calls; Fp decoding goes through the range check and flag extraction. Correctness of is_on_curve / subgroup tests themselves and panic-freedom inside arithmetic are not decided.",
+  "note": "Trusted: rustc MIR; the tables of on-curve constructors and pass-through adapters in rules/c10.py. Assumes on-curve constructors solve the curve equation (C03/C11).",
+ },
 }
 NOT_APPLICABLE = {}
